@@ -2,22 +2,20 @@
    aqua/handler.go ProtocolManager.handleMsg as decision rules.  Definitions only.
    The constants are compared with the Go constants on every run (driver
    command `consts`). *)
-From AQ Require Import Lib.Bytes.
+From AQ Require Import Lib.Bytes Generated.GenParamsNet.
 Local Open Scope N_scope.
 
-Definition protocol_max_msg_size : N := 10485760.   (* aqua/protocol.go ProtocolMaxMsgSize = 10*1024*1024 *)
-Definition soft_response_limit : N := 2097152.      (* aqua/handler.go softResponseLimit *)
-Definition est_header_rlp_size : N := 500.          (* aqua/handler.go estHeaderRlpSize *)
-Definition max_block_fetch : N := 128.              (* downloader.MaxBlockFetch *)
-Definition max_header_fetch : N := 192.             (* downloader.MaxHeaderFetch *)
-Definition max_receipt_fetch : N := 256.            (* downloader.MaxReceiptFetch *)
-Definition max_state_fetch : N := 384.              (* downloader.MaxStateFetch *)
-Definition base_protocol_max_msg_size : N := 2048.  (* p2p/peer.go baseProtocolMaxMsgSize (protocol handshake) *)
+Definition protocol_max_msg_size : N := Eval compute in g_protocol_max_msg_size.   (* aqua/protocol.go ProtocolMaxMsgSize = 10*1024*1024 *)
+Definition soft_response_limit : N := Eval compute in g_soft_response_limit.      (* aqua/handler.go softResponseLimit *)
+Definition est_header_rlp_size : N := Eval compute in g_est_header_rlp_size.          (* aqua/handler.go estHeaderRlpSize *)
+Definition max_block_fetch : N := Eval compute in g_max_block_fetch.              (* downloader.MaxBlockFetch *)
+Definition max_header_fetch : N := Eval compute in g_max_header_fetch.             (* downloader.MaxHeaderFetch *)
+Definition max_receipt_fetch : N := Eval compute in g_max_receipt_fetch.            (* downloader.MaxReceiptFetch *)
+Definition max_state_fetch : N := Eval compute in g_max_state_fetch.              (* downloader.MaxStateFetch *)
+Definition base_protocol_max_msg_size : N := Eval compute in g_base_protocol_max_msg_size.  (* p2p/peer.go baseProtocolMaxMsgSize (protocol handshake) *)
 
 (* message codes of aqua/protocol.go *)
-Definition known_code (c : N) : bool :=
-  (c =? 1) || (c =? 2) || (c =? 3) || (c =? 4) || (c =? 5) || (c =? 6) || (c =? 7)
-  || (c =? 13) || (c =? 14) || (c =? 15) || (c =? 16).
+Definition known_code (c : N) : bool := existsb (N.eqb c) (tl g_aqua_codes).   (* every code but StatusMsg *)
 
 (* what handleMsg does with (msg.Code, msg.Size) before touching the payload *)
 Inductive gate := GTooLarge | GExtraStatus | GInvalidCode | GDecode.
